@@ -112,6 +112,10 @@ pub enum Kind {
 pub struct Case {
     pub kind: Kind,
     pub dash_c: bool,
+    /// a pipeline that runs while the shell's standard input is closed: its
+    /// pipes land on descriptor 0
+    #[serde(default)]
+    pub closed_stdin: bool,
 }
 
 fn sizes() -> Vec<u32> {
@@ -275,9 +279,11 @@ pub fn generate(rng: &mut Rng, tier: Tier) -> Case {
             }
         }
     };
+    let closed_stdin = matches!(kind, Kind::Pipe { .. }) && rng.below(5) == 0;
     Case {
         kind,
         dash_c: rng.bool(),
+        closed_stdin,
     }
 }
 
@@ -303,6 +309,12 @@ fn here_payload(n: u32, s: u64) -> Vec<u8> {
 /// shell finishes with the descriptors it began with.
 pub fn render(c: &Case) -> (String, Option<String>) {
     let (mut script, expected) = render_body(c);
+    if c.closed_stdin
+        && matches!(c.kind, Kind::Pipe { .. })
+        && let Some((first, rest)) = script.clone().split_once('\n')
+    {
+        script = format!("{{ {first}; }} <&-\n{rest}");
+    }
     script.push_str("fds\n");
     (script, expected.map(|e| e + "fds: 0 1 2\n"))
 }
@@ -710,6 +722,7 @@ fn pipe_failure(hist: &crate::pipes::PHist, class: String, detail: String) -> Fa
         case: serde_json::to_value(Case {
             kind: Kind::Pipes { hist: hist.clone() },
             dash_c: false,
+            closed_stdin: false,
         })
         .unwrap(),
         cfg: SimConfig::default(),
@@ -726,6 +739,7 @@ fn waker_failure(hist: &crate::wakers::WHist, class: String, detail: String) -> 
         case: serde_json::to_value(Case {
             kind: Kind::Wakers { hist: hist.clone() },
             dash_c: false,
+            closed_stdin: false,
         })
         .unwrap(),
         cfg: SimConfig::default(),
@@ -955,6 +969,7 @@ impl Prop for C14 {
                 serde_json::to_value(Case {
                     kind: k,
                     dash_c: c.dash_c,
+                    closed_stdin: c.closed_stdin,
                 })
                 .unwrap(),
             )
